@@ -1034,7 +1034,7 @@ func init() {
 			"fill price tolerance: one unit of rounding per fill against the order's remaining volumes (exact rounding is C14's business)",
 			"the AMOUNT an authorised sender loses in its own transaction is not judged here (C01/C13/C15/C27)",
 		},
-		Quick: 42, Thorough: 1200, MinEval: 12000, MinDistinct: 50,
+		Quick: 42, Thorough: 420, MinEval: 12000, MinDistinct: 50,
 		Run: func(ctx *WorkCtx, idx int) {
 			r := Rng(ctx.Seed, "C05", idx)
 			sc := StdScenario(idx, r, 70)
